@@ -372,6 +372,24 @@ func ruleP09ToString(p *Prog, r *Report) {
 		}
 	}
 	d := p.method("klog/app", "TextSerialiser", "duration")
+	// evaluated per public method first: whatever the plumbing between the method and the notation
+	// calls (flag parameter, method value, literal), each must print minutes under DecimalDuration
+	// and its own notation otherwise
+	evaluated := true
+	for _, m := range []struct{ name, want string }{{"Duration", "ToString"}, {"SignedDuration", "ToStringWithSign"}, {"ShouldTotal", "ToString"}} {
+		if !durationRenderedRight(p.method("klog/app", "TextSerialiser", m.name), m.want) {
+			evaluated = false
+		}
+	}
+	if evaluated && r.anchorFn(rule, d, "TextSerialiser.duration") {
+		for _, cls := range []string{"plain", "decimal", "signed", "cases"} {
+			r.ok(rule, "duration:"+cls, p.pos(d.Pos()), "evaluated per public method: minutes under DecimalDuration, the method's own notation otherwise")
+		}
+		for _, m := range []string{"Duration", "SignedDuration", "ShouldTotal"} {
+			r.ok(rule, m, p.pos(p.method("klog/app", "TextSerialiser", m).Pos()), m+" prints Format of its own value: minutes under DecimalDuration, its own notation otherwise (evaluated through the helper)")
+		}
+		return
+	}
 	if r.anchorFn(rule, d, "TextSerialiser.duration") {
 		seen := map[string]bool{}
 		for _, ret := range returnsOf(d) {
